@@ -375,6 +375,13 @@ def c07(tier):
                   connect=dict(poll=1.0, close_timeout=3.0),
                   app=dict(actions=['close', 'close_default'], max_actions=1, only_events=['connecting', 'connected', 'ready', 'text', 'closing']),
                   max_waits=30),
+        life_spec('full-read-then-silence', tags,
+                  'a read that fills the 64 KiB receive buffer exactly (a binary frame of 65 536 wire bytes, optionally a Text before/after), then a silent '
+                  'server with close_timeout and ping_timeout armed; the application may close(): a timeout must end the iteration - the loop must not '
+                  'sit in a blocking recv() for bytes that are not there',
+                  server=dict(kind='grammar', K=2, alphabet=['full_buffer', 'text'], may_stop=False), end='silence', silent_waits=10 ** 6,
+                  connect=dict(poll=1.0, close_timeout=3.0, ping_timeout=5.0, ping_rate=0),
+                  app=dict(actions=['close'], max_actions=1, only_events=['ready', 'binary']), max_waits=30, xval_stride=3),
         life_spec('close-write-fault-then-silence', tags,
                   'as close-then-silence, with a symbolic fault on any write after the upgrade request (the Close frame itself may fail to be written): '
                   'the close timeout must still end the iteration',
